@@ -157,9 +157,11 @@ pub fn run(ctx: &Ctx) -> i32 {
     jobs.push(Job::Classes(d));
     jobs.push(Job::Nested(d));
   }
-  if !quick {
-    // every polar ring boundary of the deepest depths (where 1 + 2 r exceeds 2^53)
-    for d in [26u8, 27, 28, 29] {
+  {
+    // every polar ring boundary (+ a generic index of the ring): mid depths in the quick tier, every
+    // depth beyond the exhaustive ones in the thorough tier (1 + 2 r exceeds 2^53 from depth 26 on)
+    let ring_depths: Vec<u8> = if quick { (d_exh + 1..=18).collect() } else { (d_exh + 1..=29).collect() };
+    for d in ring_depths {
       let n = 1u64 << d;
       let step = 1u64 << 20;
       let mut lo = 1;
@@ -206,7 +208,8 @@ pub fn run(ctx: &Ctx) -> i32 {
         for jr in *lo..*hi {
           // last cell of the ring and first of the next, north and south
           let last = 2 * jr * (jr + 1) - 1;
-          for r in [last, last + 1, 12 * n * n - 1 - last, 12 * n * n - 2 - last] {
+          let mid = 2 * jr * (jr - 1) + (4 * jr * 5) / 13; // a generic index of ring jr
+          for r in [last, last + 1, 12 * n * n - 1 - last, 12 * n * n - 2 - last, mid, 12 * n * n - 1 - mid] {
             if r < 12 * n * n {
               part.stratum("all-polar-ring-boundaries", 1, 2);
               if let Some(v) = check_ring_index(*d, r, false, &mut part) {
@@ -217,7 +220,7 @@ pub fn run(ctx: &Ctx) -> i32 {
         }
       }
       Job::Nested(d) => {
-        for h in class_cells(*d) {
+        for h in class_cells(*d).into_iter().chain(carry_cells(*d, true).into_iter()) {
           part.stratum("nested-class-cells", 1, 2);
           if let Some(v) = check_nested_cell(*d, h, &mut part) {
             part.viol(v);
@@ -232,7 +235,7 @@ pub fn run(ctx: &Ctx) -> i32 {
     total,
     json!({"exhaustive_depths": format!("0..={} (every RING index and every NESTED cell)", d_exh),
       "deeper": "for every depth to 29: ~900 rings (first 5, powers of two +-1, cap/transition/equator classes, 800 spread rings) x first/last/quarter-boundary indices +-2; border-class NESTED cells",
-      "all_polar_ring_boundaries": if quick { json!("not in the quick tier") } else { json!("every polar ring (north and south) of depths 26 and 29: last index of the ring and first of the next") }}),
+      "all_polar_ring_boundaries": if quick { json!("every polar ring (north and south) of depths 12..=18: last index of the ring, first of the next, one generic index") } else { json!("every polar ring (north and south) of every depth 14..=29: last index of the ring, first of the next, one generic index") }}),
     "the complete index sets of the exhaustive depths (=> bijection outright there); the listed boundary classes deeper",
     vec!["exact integer RING model R3 (u128 arithmetic, exact integer square root), self-checked against the lattice model".into()],
     Map::new(),
